@@ -264,6 +264,34 @@ def run_shard(cfg):
                     viol("subclass-roundtrip-raised", "round trip of a subclass instance raised %r" % (e,), {"object": short(xs, 100)})
             x = sh.make()
             c.inc("objects")
+            if i % 15 == 7:
+                # a failure history: the object is first encoded while one nested member is still missing (the library raises), the
+                # caller catches that, fills the member in and encodes the SAME object again - the normal checks below
+                objf = [n for n, (s_, T_) in sh.fields if s_ == "obj"]
+                if objf:
+                    keep = getattr(x, objf[0])
+                    setattr(x, objf[0], None)
+                    for enc in (x.toJson, x.dumps):
+                        try:
+                            enc()
+                            c.inc("incomplete_object_encoded_without_error")
+                        except Exception:
+                            c.inc("failed_encodes_before_repair")
+                    setattr(x, objf[0], keep)
+            if i == 11:
+                # containers above the binary format's 16384 limit: JSON has no such limit (toJson emits them, fromJson reads them)
+                for name_, (shape_, T_) in sh.fields:
+                    nbig = r.choice([16385, 40000])
+                    if shape_ == "list" and T_ in (int, str, bool, float):
+                        setattr(x, name_, [sh.basic(T_) for _ in range(nbig)])
+                    elif shape_ == "set" and T_ is int:
+                        setattr(x, name_, set(range(-5, nbig)))
+                    elif shape_ == "dict" and T_[0] is int and T_[1] in (int, str, bool):
+                        setattr(x, name_, {k_: sh.basic(T_[1]) for k_ in range(nbig)})
+                    else:
+                        continue
+                    c.inc("containers_above_16384")
+                    break
             want = jcanon(x)
             shapes_of = {n: s for n, (s, T) in sh.fields}
             try:
@@ -345,7 +373,7 @@ def finish(tier, seed, results):
     need(m["counters"], ["objects", "json_dumps_ok", "roundtrip_fromJson_toJson", "roundtrip_loads_dumps", "field_shape_basic", "field_shape_obj",
                          "field_shape_enum", "field_shape_list", "field_shape_set", "field_shape_tuple", "field_shape_dict",
                          "in_place_mutations", "roundtrip_after_in_place_change", "subclass_roundtrips", "earlier_results_rechecked",
-                         "class_defaults_rechecked", "decoded_values_mutated_in_place"], inconclusive)
+                         "class_defaults_rechecked", "decoded_values_mutated_in_place", "failed_encodes_before_repair", "containers_above_16384"], inconclusive)
     cov = {
         "evaluations": m["evaluations"],
         "distinct_nontrivial": m["distinct_nontrivial"],
